@@ -27,6 +27,8 @@ VERIF_ROOT = os.path.dirname(os.path.dirname(os.path.abspath(__file__)))
 REPO_ROOT = os.environ.get("VERIF_REPO_ROOT", "/repo")
 DEFAULT_SEED = 20261003
 MASK64 = (1 << 64) - 1
+RUN_CPU_LIMIT_S = float(os.environ.get("VERIF_RUN_CPU_LIMIT", "90"))
+RUN_WALL_LIMIT_S = 3600.0
 
 
 class HarnessError(BaseException):
@@ -345,9 +347,48 @@ def _in_fork(fn):
         finally:
             os._exit(code)
     os.close(w)
-    with os.fdopen(r, "rb") as f:
-        data = f.read()
+    # Bounded wait: a run that burns more than RUN_CPU_LIMIT_S of CPU time is
+    # stuck in a loop of the system under test (normal runs need milliseconds
+    # to a few seconds); CPU time, not wall time, so machine load cannot
+    # trigger it.  A run that sits idle for RUN_WALL_LIMIT_S is a harness
+    # problem (deadlock) and is reported as such.
+    import select
+    chunks = []
+    t0 = time.monotonic()
+    verdict = None
+    ticks = os.sysconf("SC_CLK_TCK")
+    while True:
+        ready, _, _ = select.select([r], [], [], 2.0)
+        if ready:
+            b = os.read(r, 1 << 20)
+            if not b:
+                break
+            chunks.append(b)
+            continue
+        try:
+            with open(f"/proc/{pid}/stat") as f:
+                fields = f.read().rsplit(")", 1)[1].split()
+            cpu = (int(fields[11]) + int(fields[12])) / ticks
+        except (OSError, IndexError, ValueError):
+            cpu = 0.0
+        if cpu > RUN_CPU_LIMIT_S:
+            verdict = ("timeout", f"run consumed more than "
+                       f"{RUN_CPU_LIMIT_S:.0f} s of CPU time")
+            break
+        if time.monotonic() - t0 > RUN_WALL_LIMIT_S:
+            verdict = ("err", f"run idle for {RUN_WALL_LIMIT_S:.0f} s "
+                       "(harness deadlock?)")
+            break
+    os.close(r)
+    if verdict is not None:
+        try:
+            os.kill(pid, 9)
+        except OSError:
+            pass
+        os.waitpid(pid, 0)
+        return verdict
     _pid, status = os.waitpid(pid, 0)
+    data = b"".join(chunks)
     if not data:
         return ("err", f"forked run died (wait status {status})")
     return pickle.loads(data)
@@ -384,6 +425,23 @@ def _run_batch(args):
             seed = run_seed(base_seed, check.pid, idx)
             st, rec = _in_fork(lambda: _one_run(check, base_seed, tier, idx,
                                                 recheck_every))
+            if st == "timeout":
+                # the system under test did not terminate: a violation of
+                # every property (no operation may hang), reported with the
+                # generated trace; not minimised (each attempt would hang)
+                trace = json.loads(json.dumps(check.gen(
+                    random.Random(seed), tier, idx)))
+                out.append({
+                    "idx": idx, "seed": seed, "digest": "timeout",
+                    "steps": 0, "faults": {}, "probes": {}, "sig": "timeout",
+                    "nontrivial": False, "evals": 1, "sigs": None,
+                    "trace": trace,
+                    "violations": [{
+                        "oracle": f"{check.pid}/does-not-terminate",
+                        "message": f"run idx={idx}: {rec}; the operation "
+                        "under test never returned",
+                        "key": f"{check.pid}/does-not-terminate"}]})
+                continue
             if st != "ok":
                 out.append({"idx": idx, "seed": seed, "harness_error": rec})
                 continue
@@ -473,6 +531,13 @@ def replay_main(check, path):
         doc = json.load(f)
     prepare(check)
     st, res = _in_fork(lambda: _slim(run_trace(check, doc["trace"])))
+    if st == "timeout":
+        if doc["violation"]["key"].endswith("/does-not-terminate"):
+            print(f"REPRODUCED key={doc['violation']['key']} ({res})")
+            if not os.environ.get("VERIF_REPLAY_QUIET"):
+                print(f"VIOLATION property={check.pid} replay={path}")
+            return 1
+        raise HarnessError("replay did not terminate: " + str(res))
     if st != "ok":
         raise HarnessError("replay execution failed:\n" + str(res))
     want = doc["violation"]["key"]
@@ -569,7 +634,7 @@ def _explore(check, script_file, args):
 
         def submit_more():
             while len(pending) < workers * 2:
-                if time.monotonic() > deadline:
+                if time.monotonic() > deadline or agg.get("stop"):
                     return
                 b = next(it, None)
                 if b is None:
@@ -627,6 +692,23 @@ def _explore(check, script_file, args):
         start = dict(rec["trace"])
         if v.get("narrow"):
             start.update(v["narrow"])
+        if key.endswith("/does-not-terminate"):
+            path = _replay_path(check.pid, rec["seed"], rec["idx"])
+            with open(path, "w") as f:
+                json.dump({"property": check.pid, "seed": rec["seed"],
+                           "idx": rec["idx"], "base_seed": base_seed,
+                           "tier": tier, "violation": v, "digest": "",
+                           "shrink_execs": 0, "trace": start}, f, indent=1,
+                          sort_keys=True)
+            ok, out = _verify_replay_fresh(script_file, path)
+            if not ok:
+                print(out, file=sys.stderr)
+                raise HarnessError(f"replay {path} (non-termination) did "
+                                   "not reproduce")
+            print(f"  oracle={v['oracle']} key={v['key']}\n  {v['message']}")
+            print(f"VIOLATION property={check.pid} replay={path}")
+            reported += 1
+            continue
         small, execs = minimise(check, start, v["key"],
                                 check.shrink_budget_s)
         st, res = _in_fork(lambda: _slim(run_trace(check, small)))
@@ -694,6 +776,9 @@ def _absorb(agg, rec):
         agg["rechecked"] += 1
     if "violations" in rec:
         agg["viol"].append(rec)
+        if any(v["key"].endswith("/does-not-terminate")
+               for v in rec["violations"]):
+            agg["stop"] = True      # every further hang costs the CPU limit
     elif "trace" in rec and len(agg["samples"]) < 3:
         agg["samples"].append({"idx": rec["idx"], "seed": rec["seed"],
                                "trace": _clip(rec["trace"]),
